@@ -237,11 +237,11 @@ fn vv(value: &str, version: u64, st: u8) -> VersionedValue {
 fn verif_c18_catchup() {
     let mut r = Report::new(
         "c18_catchup",
-        "copies {absent, empty, mid-reset (gc5,max3), ahead (0,9), behind (0,2) with keys a@1 b@2, removed-and-remembered} x supplied key sets over {a,b,c} with versions in {1,4,7} and every status x max_version in {0,3,5,7,9} x last_gc in {0,2,5,8}",
+        "copies {absent, empty, mid-reset (gc5,max3), ahead (0,9), behind (0,2) with keys a@1 b@2 (all set / b a tombstone / a TTL-marked), removed-and-remembered} x supplied key sets over {a,b,c} with versions in {1,4,7} and every status x max_version in {0,3,5,7,9} x last_gc in {0,2,5,8}",
         true,
     );
     let other = ChitchatId::for_local_test(2);
-    let copies = ["absent", "empty", "midreset", "ahead", "behind", "removed"];
+    let copies = ["absent", "empty", "midreset", "ahead", "behind", "behind_tombstone", "behind_ttl", "removed"];
     // supplied key sets
     let mut supplied: Vec<Vec<(String, u64, u8)>> = vec![vec![]];
     for ka in [None, Some((1u64, 0u8)), Some((4, 1)), Some((7, 2))] {
@@ -289,10 +289,10 @@ fn verif_c18_catchup() {
                             let ns = n.cluster_state.node_state_mut_or_init(&other);
                             ns.set_versioned_value("a".to_string(), vv("x", 9, 0));
                         }
-                        "behind" => {
+                        "behind" | "behind_tombstone" | "behind_ttl" => {
                             let ns = n.cluster_state.node_state_mut_or_init(&other);
-                            ns.set_versioned_value("a".to_string(), vv("x", 1, 0));
-                            ns.set_versioned_value("b".to_string(), vv("y", 2, 0));
+                            ns.set_versioned_value("a".to_string(), vv("x", 1, if copy == "behind_ttl" { 2 } else { 0 }));
+                            ns.set_versioned_value("b".to_string(), vv(if copy == "behind_tombstone" { "" } else { "y" }, 2, if copy == "behind_tombstone" { 1 } else { 0 }));
                         }
                         _ => {
                             n.cluster_state.node_state_mut_or_init(&other);
@@ -654,6 +654,11 @@ fn verif_c05_owner() {
                                 let mut digest = Digest::default();
                                 digest.add_node(me.clone(), Heartbeat(dhb), dgc.min(4), dmax);
                                 digest.add_node(member(1), Heartbeat(2), 0, 0);
+                                // another incarnation of the local node (same node id and address, other
+                                // generation), as a peer that knew the node before a restart relays it
+                                let mut other_incarnation = me.clone();
+                                other_incarnation.generation_id = me.generation_id + 1 + (dhb % 2);
+                                digest.add_node(other_incarnation, Heartbeat(3), 0, 0);
                                 let mut delta = Delta::default();
                                 delta.add_node(me.clone(), dgc, from);
                                 for i in 0..nkv {
@@ -679,6 +684,10 @@ fn verif_c05_owner() {
                                 r.nontrivial += 1;
                                 if r.samples.len() < 2 && nkv > 0 {
                                     r.sample(case.clone());
+                                }
+                                if n.node_state(&me).is_none() {
+                                    r.fail("own-state-removed", "the local node's own state is gone after the message".to_string(), case.clone());
+                                    continue;
                                 }
                                 let after = snapshot(&n);
                                 if after != before {
@@ -1015,7 +1024,12 @@ async fn verif_c12_timeline() {
             let ack = n
                 .process_message(ChitchatMessage::SynAck { digest: Digest::default(), delta: Delta::default() })
                 .unwrap();
-            for (name, m) in [("Syn", &syn), ("SynAck", &synack), ("Ack", &ack)] {
+            // the same SYN from a peer that still lists P in its digest (it flagged P dead later, or not
+            // yet): stale heartbeat, nothing known about P's key-values
+            let mut d_with_p = Digest::default();
+            d_with_p.add_node(p.clone(), Heartbeat(12), 0, 0);
+            let synack_p = n.process_message(ChitchatMessage::Syn { cluster_id: "default-cluster".to_string(), digest: d_with_p }).unwrap();
+            for (name, m) in [("Syn", &syn), ("SynAck", &synack), ("Ack", &ack), ("SynAck to a peer listing the member", &synack_p)] {
                 let bytes = m.serialize_to_vec();
                 let decoded = ChitchatMessage::deserialize(&mut &bytes[..]).expect("own message decodes");
                 let mentioned = mentions_in(&decoded, &p);
